@@ -71,6 +71,8 @@ theorem load_wrapResource (refine : Bytes → Bytes) (raw wrapped : Bytes)
         List.take_of_length_le (by simp [putU32LE_length])]
     unfold load
     simp only [Bool.false_eq_true, ↓reduceIte, htake, u32LE_putU32LE _ hn32, hbuf]
+    have hL : (wrapped ++ extra).length ≥ 8 := by omega
+    generalize (wrapped ++ extra).length = L at hL hwl ⊢
     rw [if_neg (by simp; omega)]
     rw [if_neg (by simp; omega)]
     have hsh : refined.length >>> 30 = 0 := by
